@@ -1,6 +1,7 @@
 package verifharness
 
 import (
+	"encoding/json"
 	"fmt"
 	"strings"
 	"testing"
@@ -32,7 +33,7 @@ type C14Scenario struct {
 }
 
 var c14Kinds = []string{"shell", "shell", "shell", "health", "badkey", "badpw", "nochannel", "noshell", "twoshells", "twochannels",
-	"unknownreq", "resetkex", "resetauth", "resetmid"}
+	"unknownreq", "resetkex", "resetauth", "resetmid", "bgschedule", "bgcontinuous", "directtcpip", "ptyreq"}
 
 func c14Gen(r *Rand, tier string, i int) Scenario {
 	sc := &C14Scenario{}
@@ -101,7 +102,15 @@ func c14Run(t *testing.T, s Scenario, src verifsim.DecisionSource, keep bool) *R
 	probes := map[string]int{}
 	res.Outcome = RunSim(t, opts, func(w *World) {
 		w.WriteFile("small.log", []byte("one\ntwo\nthree\n"))
-		w.StartSSHWorld([]string{"srv1"}, ServerCfg{MaxConns: sc.MaxConns, MaxCats: 4}, nil)
+		w.StartSSHWorld([]string{"srv1"}, ServerCfg{MaxConns: sc.MaxConns, MaxCats: 4}, func() {
+			// one (disabled) job of each kind whose allow list covers the client:
+			// background-job users can log in with the job name as password
+			job := `[{"Name":"bgjob","Enable":false,"AllowFrom":["10.0.1.1"],"Files":"/nonexistent","Query":"select count($line)","Outfile":"/nonexistent/out"}]`
+			config.Server.Schedule = nil
+			must(json.Unmarshal([]byte(job), &config.Server.Schedule))
+			config.Server.Continuous = nil
+			must(json.Unmarshal([]byte(job), &config.Server.Continuous))
+		})
 		srv = w.Servers[0]
 		good := []gossh.AuthMethod{gossh.PublicKeys(Key(0).Signer)}
 		bad := []gossh.AuthMethod{gossh.PublicKeys(Key(5).Signer)}
@@ -157,6 +166,12 @@ func c14Run(t *testing.T, s Scenario, src verifsim.DecisionSource, keep bool) *R
 			var rs *RawSession
 			if op.Kind == "health" {
 				rs = w.RawDial("health", "srv1", config.HealthUser, []gossh.AuthMethod{gossh.Password(config.HealthUser)}, 5*time.Second)
+			} else if op.Kind == "bgschedule" || op.Kind == "bgcontinuous" {
+				u := config.ScheduleUser
+				if op.Kind == "bgcontinuous" {
+					u = config.ContinuousUser
+				}
+				rs = w.RawDial(op.Kind, "srv1", u, []gossh.AuthMethod{gossh.Password("bgjob")}, 5*time.Second)
 			} else {
 				rs = w.RawDial(op.Kind, "srv1", simUser, good, 5*time.Second)
 			}
@@ -164,9 +179,15 @@ func c14Run(t *testing.T, s Scenario, src verifsim.DecisionSource, keep bool) *R
 			if rs.DialErr != nil {
 				st.refused = true
 				st.note = rs.DialErr.Error()
+				if strings.HasPrefix(op.Kind, "bg") {
+					res.Info["bg_refused"] = st.note
+				}
 				return
 			}
 			st.established = true
+			if strings.HasPrefix(op.Kind, "bg") {
+				probes["conn.background-user-established"]++
+			}
 			switch op.Kind {
 			case "resetauth":
 				rs.Conn.Reset()
@@ -176,7 +197,24 @@ func c14Run(t *testing.T, s Scenario, src verifsim.DecisionSource, keep bool) *R
 				if sess, err := rs.Client.NewSession(); err == nil {
 					_ = sess
 				}
-			case "shell", "health", "resetmid":
+			case "directtcpip":
+				// what `ssh -L`/`-W` opens: a channel type the server does not serve
+				if ch, reqs, err := rs.Client.OpenChannel("direct-tcpip", gossh.Marshal(struct {
+					Host  string
+					Port  uint32
+					OHost string
+					OPort uint32
+				}{"127.0.0.1", 22, "127.0.0.1", 4321})); err == nil {
+					go gossh.DiscardRequests(reqs)
+					_ = ch
+				}
+			case "ptyreq":
+				// what a plain `ssh host` sends first: pty-req and env before shell
+				if sess, err := rs.Client.NewSession(); err == nil {
+					sess.Setenv("LANG", "C")
+					sess.RequestPty("xterm", 24, 80, gossh.TerminalModes{})
+				}
+			case "shell", "health", "resetmid", "bgschedule", "bgcontinuous":
 				if err := rs.Shell(); err != nil {
 					st.note = "shell: " + err.Error()
 					break
